@@ -277,7 +277,9 @@ namespace ratio
 #endif
                         found = true;
                     }
-                    plcs[{&atm0, &atm1}].emplace_back(get_solver().get_sat_core().new_conj({get_solver().get_ov_theory().allows(a0_tau_itm->ev, *v0), !get_solver().get_ov_theory().allows(a1_tau_itm->ev, *v0)}), static_cast<const item *>(v0));
+                    // either of the atoms can leave the common resource (unlike state variables, both might go together onto another resource which has room for them)..
+                    plcs[{&atm0, &atm1}].emplace_back(!get_solver().get_ov_theory().allows(a0_tau_itm->ev, *v0), static_cast<const item *>(v0));
+                    plcs[{&atm0, &atm1}].emplace_back(!get_solver().get_ov_theory().allows(a1_tau_itm->ev, *v0), static_cast<const item *>(v0));
                 }
         }
         else if (a0_tau_itm)
